@@ -65,7 +65,7 @@ def cases(draw, tier="quick"):
     closes = []
     for side in range(2):
         if draw(st.integers(0, 2)) > 0:
-            closes.append([side, draw(st.sampled_from([None, None, None, "welcome", "code", "key", "verifier",
+            closes.append([side, draw(st.sampled_from([None, None, None, "halfopen", "welcome", "code", "key", "verifier",
                                                        "versions", "msg"]))])
     P["closes"] = closes
     P["close_twice"] = draw(st.integers(0, 5)) == 0
@@ -75,6 +75,11 @@ def cases(draw, tier="quick"):
     P["gets"] = draw(st.sampled_from(["early", "early", "after"]))
     P["get_after_closed"] = True
     P["hs_fail"] = draw(st.sampled_from([[0, 0], [0, 0], [1, 0], [0, 1], [2, 1]]))
+    P["hs_slow"] = draw(st.sampled_from([[False, False], [False, False], [True, False], [True, True]]))
+    for c_ in closes:
+        if c_[1] == "halfopen":
+            P["hs_slow"] = list(P["hs_slow"])
+            P["hs_slow"][c_[0]] = "only"
     n = draw(st.integers(0, 220))
     P["tape"] = draw(st.binary(min_size=n, max_size=n))
     return P
